@@ -275,6 +275,8 @@ class Interp:
         it = self.eval(frame, s.iter)
         it = self.ctx.from_val(it) if isinstance(it, SV) else it
         conc = self.try_concrete_iter(it)
+        if conc is None:
+            conc = self.B.known_length_iter(self, it)
         if conc is not None:
             for item in conc:
                 self.assign(frame, s.target, item)
@@ -355,6 +357,8 @@ class Interp:
     def hashable(self, k):
         if isinstance(k, (str, int, float, bool)) or k is None:
             return k
+        if isinstance(k, (ExternalRef, ClassInfo, ModuleInfo)):
+            return k  # modules / classes: hashable by identity
         if isinstance(k, SV):
             c = const_of(k.t)
             if c is not None:
